@@ -129,7 +129,7 @@ def tree_node_range(tree, i, parents=None):
     if parents is None:
         parents = tree_node_parents(tree)
     path = tree_find_path_to_root(tree, i, parents)
-    mx = max([tree.feature[p] for p in path])
+    mx = max([tree.feature[p] for p in path if tree.feature[p] >= 0], default=-1)
     res = numpy.full((mx + 1, 2), numpy.nan)
     for ind, p in enumerate(path):
         if p == i:
